@@ -79,6 +79,10 @@ def _fwd_rev_binary_op(op, name=None):
 class Vector:
     """Value storage for arbitrary objects with added numerics."""
 
+    # Let numpy scalars and arrays defer to the reflected operators of this
+    # class (e.g. `np.float64(2.) * vector`)
+    __array_ufunc__ = None
+
     def __init__(self, tree):
         """Instantiates a vector.
 
